@@ -80,7 +80,7 @@ def run_history(ctx, seed):
 
         def step(i):
             r = rng.random()
-            if shutdown_at == i and not did_shutdown[0]:
+            if (shutdown_at == i or forced_shutdown[0] == i) and not did_shutdown[0]:
                 did_shutdown[0] = True
                 steps_log.append(('shutdown', shutdown_how))
                 if shutdown_how == 'pool':
@@ -153,24 +153,55 @@ def run_history(ctx, seed):
                 steps_log.append(('advance', dt))
                 world.advance_to(world.now + dt)
 
-        if proto >= 3 and rng.random() < 0.3:
-            # overload prelude: enough timed-out streams to cross the orphan threshold while other requests stay pending, then one
-            # more request to make the pool replace the connection: the old one goes to the pool's _trash
+        forced_shutdown = [None]
+        if proto >= 3 and rng.random() < 0.4:
+            # overload prelude: enough timed-out streams to cross the orphan threshold while other requests stay pending, then more
+            # requests (a burst: several borrows race the replacement) make the pool replace the connection: the old one goes to _trash
             thr = 3 * K // 4
             for _ in range(thr):
                 u = new_uid()
                 kinds[u] = rng.choice(['late', 'silent'])
                 plan.set(u, 'hold' if kinds[u] == 'late' else 'silent')
                 rec.execute_async(session, u, timeout=timeout)
-            for _ in range(rng.randint(0, K - 1 - thr)):
+            pending = rng.randint(0, K - 1 - thr)
+            for _ in range(pending):
                 u = new_uid()
                 kinds[u] = 'hold'
                 plan.set(u, 'hold')
                 rec.execute_async(session, u, timeout=30.0)
             world.settle(advance=False)
             world.advance_to(world.now + timeout + 0.2)
-            steps_log.append(('overload-prelude', thr, uid[0] - thr))
+            steps_log.append(('overload-prelude', thr, pending))
             info['overload_prelude'] = True
+            if rng.random() < 0.7:
+                burst = rng.randint(1, 5)
+                for _ in range(burst):
+                    u = new_uid()
+                    kinds[u] = 'rows'
+                    plan.set(u, 'rows')
+                    rec.execute_async(session, u, timeout=30.0)
+                    if rng.random() < 0.3:
+                        world.settle(advance=False)
+                steps_log.append(('burst', burst))
+                if rng.random() < 0.6:
+                    # the replacement is in service, the old connection (if something is still pending on it) waits in the trash: now the live
+                    # connection fails while its own replacement cannot complete at once, and the pool is shut down in one of the next steps
+                    world.settle(advance=False)
+                    live = [c for c in pw.live_pool_conns() if not c.orphaned_threshold_reached]
+                    if live:
+                        c = rng.choice(live)
+                        if rng.random() < 0.7:
+                            pw.hold_handshake[0] = True
+                        else:
+                            for n in net.nodes.values():
+                                n._refuse = rng.choice([1, 2, 3])
+                        how = rng.random() < 0.5
+                        steps_log.append(('fail', c.sim_id, 'reset' if how else 'eof', [n._refuse for n in net.nodes.values()], pw.hold_handshake[0]))
+                        net.server_close(c, reset=how)
+                        if rng.random() < 0.7:
+                            world.settle(advance=False)
+                        if rng.random() < 0.7:
+                            forced_shutdown[0] = rng.randrange(0, 3)
         for i in range(nsteps):
             step(i)
         # ---------------- drain
@@ -363,12 +394,9 @@ def run(ctx):
     n = ctx.scale(900, 60000)
     budget = 44 if ctx.quick else 420
     base = ctx.seed * 1000003 + (ctx.worker or 0) * 100003
-    import time as _t
-    # wall-clock only bounds the amount of work (never a verdict); keep a minimum of work when start-up on a busy box ate the budget
-    t_end = _t.time() + max(15 if ctx.quick else 120, ctx.time_left(budget))
     n_min = 30 if ctx.quick else 150      # per worker, whatever the box is doing: the floors below must never depend on the load
     for i in range(n):
-        if i >= n_min and _t.time() > t_end:
+        if i >= n_min and ctx.time_left(budget) < 0:          # CPU-time budget (vlib/run.py), wall-clock capped
             ctx.note("stopped by time budget after %d histories" % i)
             break
         seed = base + i
